@@ -24,6 +24,7 @@ import (
 	"github.com/rs/zerolog"
 	"google.golang.org/grpc"
 	"google.golang.org/grpc/credentials/insecure"
+	"google.golang.org/grpc/metadata"
 	"google.golang.org/grpc/test/bufconn"
 
 	"go.6river.tech/mmmbbb/db"
@@ -149,7 +150,7 @@ func New(ctx context.Context, dir string) (*World, error) {
 		delN: map[uuid.UUID]int{}, Filters: map[string]any{}, ModelName: map[string]string{},
 	}
 	lis := bufconn.Listen(1 << 20)
-	w.Srv = grpc.NewServer()
+	w.Srv = grpc.NewServer(grpc.ChainUnaryInterceptor(actorUnary), grpc.ChainStreamInterceptor(actorStream))
 	if err := services.InitializeGrpcServers(w.Srv, client, nil); err != nil {
 		return nil, err
 	}
@@ -163,6 +164,37 @@ func New(ctx context.Context, dir string) (*World, error) {
 	w.Pub = pubsubpb.NewPublisherClient(w.Conn)
 	w.Sub = pubsubpb.NewSubscriberClient(w.Conn)
 	return w, nil
+}
+
+// ActorCtx tags a context with an actor name both for direct calls into the
+// code (sqlwrap) and for calls through the in-process gRPC API (metadata that
+// the world's server copies back into the handler's context).
+func ActorCtx(ctx context.Context, actor string) context.Context {
+	return metadata.AppendToOutgoingContext(sqlwrap.WithActor(ctx, actor), "verif-actor", actor)
+}
+
+func actorFromMD(ctx context.Context) context.Context {
+	if md, ok := metadata.FromIncomingContext(ctx); ok {
+		if v := md.Get("verif-actor"); len(v) > 0 {
+			return sqlwrap.WithActor(ctx, v[len(v)-1])
+		}
+	}
+	return ctx
+}
+
+func actorUnary(ctx context.Context, req any, _ *grpc.UnaryServerInfo, h grpc.UnaryHandler) (any, error) {
+	return h(actorFromMD(ctx), req)
+}
+
+type actorStreamWrap struct {
+	grpc.ServerStream
+	ctx context.Context
+}
+
+func (s *actorStreamWrap) Context() context.Context { return s.ctx }
+
+func actorStream(srv any, ss grpc.ServerStream, _ *grpc.StreamServerInfo, h grpc.StreamHandler) error {
+	return h(srv, &actorStreamWrap{ServerStream: ss, ctx: actorFromMD(ss.Context())})
 }
 
 func (w *World) Close() {
